@@ -14,8 +14,10 @@ and for repo-* quadratures `node_defect` names the classes of stored orbits whos
 a complete octahedral orbit (attribution only: obtained by slicing the output of the real loadPoints along the
 table entries), so that a defect of the node tables is not blamed on the tensor algebra and vice versa.
 
-Monitors (tolerances are constants; all relations below are algebraic identities in the nodes/weights, so the
-oracle tolerance is rounding level, not quadrature level):
+Monitors (tolerances are constants; except for axis_permutation/cyclic-xyz all relations below are algebraic identities
+in the nodes/weights, so the oracle tolerance is rounding level, not quadrature level; worst residuals measured on the
+tree with the two proposed fixes, seeds 0,1,2,3,7: size 1.1e-12, strain 3.5e-15, rank 7.5e-15, inverse 5.4e-13,
+homog 2.3e-15, closed form 1.9e-12, textbook (gl) 2.2e-14, rotation 1.4e-14, setter order 0, cyclic-xyz (gl) 2.5e-7):
   nonneg             compute() (inhomogeneous, Bohm) and strainEnergyEllipsoid (homogeneous) >= -1e-12 * U0, U0 = V/2 eps:C:eps,
                      also for elongated spheroids up to aspect ratio 100 (the default upper bound of eqAR_byGR); mech
                      carries the aspect-ratio class and `quadrature_resolved`: whether the error
@@ -68,6 +70,12 @@ For aspect ratios > 6 the injected rule is a 400 x 32 product rule (axisymmetric
 a converged reference up to aspect ratio 100.
 In all energy cases rotations are supplied BEFORE the stiffness, so that the setter-order defect is seen by
 setter_order only.
+Out of reach of the stated relations: a wrong dependence of the Eshelby tensor on the semi-axes that is consistent
+with all symmetries and scalings above (e.g. another degree-1 homogeneous, permutation-covariant function of the
+semi-axes in place of beta) - the statement gives closed forms for the sphere only.
+The harness keeps at most 3 violations per monitor and case; inside a case the injected rule is evaluated first and
+the least resolved shipped order last, so that a failure of the tensor algebra is never crowded out by the recorded
+node-table findings.
 """
 import itertools
 import math
@@ -78,8 +86,8 @@ PROPERTY = 'C16'
 LEVEL = 'exploration'
 RULE = ('random parameter sets: matrix {isotropic, cubic aligned, cubic rotated} x precipitate {unset, same constants, '
         'isotropic, cubic aligned, cubic rotated} x eigenstrain {dilatational, diagonal, full symmetric with shear} x '
-        'semi-axes {sphere, needle, plate, triaxial; aspect ratio 1.05-6} x 4 quadratures (3 shipped orders + injected '
-        'Gauss-Legendre product rule); plus node-table cases (one per order and the harness rule), modulus-pair bundles, '
+        'semi-axes {sphere, needle, plate, triaxial; aspect ratio 1.05-6, 30 % of the spheroids 6-100} x 4 quadratures '
+        '(3 shipped orders + injected Gauss-Legendre product rule); plus node-table cases (one per order and the harness rule), modulus-pair bundles, '
         'tensor-conversion bundles and equilibrium-aspect-ratio cases. An energy case is non-trivial when the Zener '
         'ratio of matrix or precipitate differs from 1 by > 5 % or the aspect ratio is > 1.05; the other kinds are '
         'non-trivial when their monitors were evaluated; distinct by the hash of the drawn configuration')
@@ -912,7 +920,8 @@ MANIFEST = {
             'diagonal, with shear), semi-axes and rotations are run through the real StrainEnergy / EllipsoidalEnergyDescription '
             'code; positivity, cubic size scaling, quadratic eigenstrain scaling, 6x6 = 4th rank, Cramer = LAPACK inversion, '
             'inhomogeneous = homogeneous for equal stiffness, the isotropic-sphere closed form (ellipsoid formulas and spherical '
-            'approximation), the textbook isotropic-sphere Eshelby tensor, invariance under rotation of an isotropic matrix, '
+            'approximation), the textbook isotropic-sphere Eshelby tensor, invariance under rotation of an isotropic matrix '
+            '(also as a 90-degree turn of the particle against the matrix), '
             'independence of the setter order, exactness of each shipped quadrature order on all monomials up to its degree, '
             'tensor-rank and modulus-pair round trips and agreement of the two equilibrium-aspect-ratio searches are asserted. '
             'Every relation that involves the sphere integral is evaluated with the shipped node sets and with an injected '
